@@ -962,6 +962,136 @@ def attach_search(ctx, shim, r, nfonts, ntexts):
                          "non-trivial = number of anchor pairs checked")
 
 
+import _c07_target as tg
+
+
+def target_search(ctx, shim, r, nfonts, ntexts):
+    """the search for the attachment target: GDEF classes independent of the coverages, lookup flags, mark filtering
+    sets, several subtables / lookups, marks inside and after real ligatures, default ignorables in between.
+    The expected target is computed by tg.expected() from the recipe alone."""
+    groups, meta = [], []
+    for f in range(nfonts):
+        cursive = f % 6 == 5
+        rec, sem = tg.target_font(r, cursive=cursive)
+        if cursive:          # one cursive lookup: no competing links
+            rec["gpos"]["lookups"] = rec["gpos"]["lookups"][:1]; sem["lookups"] = sem["lookups"][:1]
+            rec["gpos"]["features"][0]["lookups"] = [0]
+        lines = [f"font T{f} {fontbuild.hexfont(rec)}", f"font U{f} {fontbuild.hexfont(tg.stripped(rec))}"]
+        ms = []
+        for _ in range(ntexts):
+            text = tg.target_text(r, sem)
+            d = r.choice(DIRS)
+            flags = tg.PRESERVE_DI if r.chance(2, 3) else 0
+            lines += [tg.shape_req(f"T{f}", d, text, flags), tg.shape_req(f"U{f}", d, text, flags)]
+            ms.append((text, d, flags))
+        lines += [f"fontdrop T{f}", f"fontdrop U{f}"]
+        groups.append(lines); meta.append((rec, sem, ms))
+    outs = vlib.run_groups(shim, groups, timeout=900)
+    stats = {"shapes": 0, "attached": 0, "attached_non_mark": 0, "default_ignorable_between": 0, "with_ligature": 0, "with_multiple_subst": 0,
+             "markbase_subtables_disagree_on_sequence_glyph(not judged)": 0,
+             "mark_inside_ligature": 0, "cursive_cross_axis_only": 0,
+             "cursive_pair_with_gdef_mark(main axis not judged)": 0, "cursive_exit_reused(earlier pair not judged)": 0, "per_dir": {d: 0 for d in DIRS}}
+    bad = 0
+    for (rec, sem, ms), o, g in zip(meta, outs, groups):
+        if o[0] != "ok" or o[1] != "ok":
+            ctx.violation(f"generated target-search font rejected: {o[0]} {o[1]}", {"stage": "search", "stream": "gpos-target",
+                          "font_line": g[0][:200]}); continue
+        for t, (text, d, flags) in enumerate(ms):
+            so, s0 = o[2 + 2 * t], o[3 + 2 * t]
+            why = tg.check(sem, text, d, flags, so, s0, stats)
+            if why:
+                bad += 1
+                if bad <= 2:
+                    ctx.violation(why, {"stage": "search", "stream": "gpos-target", "font_line": g[0], "plain_font_line": g[1],
+                                        "request": g[2 + 2 * t], "plain_request": g[3 + 2 * t], "observed": so, "plain": s0,
+                                        "text": text, "dir": d, "flags": flags, "sem": sem, "recipe": rec})
+    ctx.note_search("gpos-target", stats["shapes"], stats["attached"], detail=stats,
+                    rule="generated fonts whose GDEF classes are drawn independently of the coverages (mark coverage with base / "
+                         "ligature / unclassified / default-ignorable glyphs, base coverage with marks), mark-to-base / "
+                         "mark-to-ligature / mark-to-mark lookups (1-5, 1-2 subtables each) or one cursive lookup, with random "
+                         "IgnoreBaseGlyphs / IgnoreLigatures / IgnoreMarks / mark-filtering-set / mark-attachment-type flags, "
+                         "optional GSUB ligatures (marks inside and after) x random texts with default ignorables x 4 directions "
+                         "x PRESERVE_DEFAULT_IGNORABLES on/off through shape(); the expected target of every glyph is computed "
+                         "from GDEF + flags + coverages alone; oracle: anchors of every expected attachment coincide in the pen "
+                         "model, glyphs without a target keep the offsets they have without the lookups, advances unchanged; "
+                         "non-trivial = expected attachments checked")
+
+
+def pos_groups(shim, r, nfonts, nbufs):
+    """request groups of the `gpos-lookup` correspondence stream: font, then `gp pos` lines (the lookups the crate's
+    own plan selects, queried first with `gp plan`)"""
+    fonts = []
+    for f in range(nfonts):
+        k = r.below(10)
+        rec, sem = tg.target_font(r, kinds=[4, 4, 4, 5, 5, 6, 6] if k < 7 else [3, 4, 4, 5, 6] if k < 9 else [3])
+        rec = {x: v for x, v in rec.items() if x != "gsub"}; sem["gsub"] = None
+        fonts.append((f"Q{f}", rec, sem))
+    plans = vlib.run_groups(shim, [[f"font {fid} {fontbuild.hexfont(rec)}"] + [f"gp plan {fid} {d}" for d in DIRS] + [f"fontdrop {fid}"]
+                                   for fid, rec, sem in fonts], timeout=600)
+    groups = []
+    for (fid, rec, sem), po in zip(fonts, plans):
+        if po[0] != "ok" or not all(x.startswith("ok") for x in po[1:5]):
+            raise vlib.BuildError(f"gp plan failed on a generated font: {po[:5]}")
+        lines = [f"font {fid} {fontbuild.hexfont(rec)}"]
+        for _ in range(nbufs):
+            di = r.below(4)
+            t = po[1 + di].split()[1]
+            maps = [] if t == "-" else [[int(v) for v in m.split(":")] for m in t.split(",")]
+            all_mask = 0
+            for m in maps: all_mask |= m[1]
+            infos = tg.rand_infos(r, sem, all_mask or 0x80000000)
+            ps = rand_pos(r, len(infos))
+            if r.chance(1, 4):
+                for q in ps: q[4], q[5] = r.range(-3, 3), r.below(4)       # position_start must forget these
+            lines.append(tg.pos_request(fid, DIRS[di], 0 if r.chance(1, 3) else 1, infos, sem, maps, ps))
+        lines.append(f"fontdrop {fid}")
+        groups.append(lines)
+    return groups
+
+
+def classify_pos(ln, out):
+    t = ln.split()
+    ks = ["pos", "pos:dir:" + t[3], "pos:finish:" + t[4]]
+    if out.startswith("ok"):
+        o = out.split()
+        ks.append("pos:has-attachment:" + o[1])
+        if t[4] == "0":
+            ch = [parse_pos(x) for x in o[2:]]
+            nm = sum(1 for q in ch if q[4] != 0 and q[5] == 1)
+            nc = sum(1 for q in ch if q[4] != 0 and q[5] == 2)
+            far = sum(1 for q in ch if q[5] == 1 and q[4] < -1)
+            ks.append("pos:mark-links:" + ("0" if nm == 0 else "1-2" if nm < 3 else "3+"))
+            ks.append("pos:cursive-links:" + ("0" if nc == 0 else "1+"))
+            if far: ks.append("pos:mark-link-skips-glyphs")
+    else:
+        ks.append(out[:40])
+    return ks
+
+
+def shared_cache_witness(ctx, shim):
+    """the witness of known_C07_base_cache_shared through shape(): `11 -> 6 6` (MultipleSubst), mark 5; subtable 2
+    (base coverage {6}) alone attaches the mark to the second 6, preceded by subtable 1 (base coverage {1}, never
+    applies) it attaches it to the first 6.  Recorded, not judged (upstream-inherited; proposed known finding)."""
+    def font(two):
+        sub1 = {"mark_coverage": [5], "base_coverage": [1], "class_count": 1, "marks": [(0, (0, 0))], "bases": [[(111, 111)]]}
+        sub2 = {"mark_coverage": [5], "base_coverage": [6], "class_count": 1, "marks": [(0, (10, 20))], "bases": [[(300, 400)]]}
+        return {"num_glyphs": 12, "cmap": "pua", "advances": [0] + [500] * 11, "gdef": {"classes": {1: 1, 6: 1, 5: 3, 11: 1}},
+                "gsub": {"features": [{"tag": "ccmp", "lookups": [0]}],
+                         "lookups": [{"type": 2, "flag": 0, "subtables": [{"coverage": [11], "sequences": [[6, 6]]}]}]},
+                "gpos": {"features": [{"tag": "mark", "lookups": [0]}],
+                         "lookups": [{"type": 4, "flag": 0, "subtables": [sub1, sub2] if two else [sub2]}]}}
+    req = "shape W l - - 0 0 - - - e00a:0,e004:1"
+    res = []
+    for two in (False, True):
+        o = vlib.run_groups(shim, [[f"font W {fontbuild.hexfont(font(two))}", req]], nproc=1)[0]
+        out = parse_shape(o[1]) if o[0] == "ok" else None
+        res.append(None if out is None or len(out) != 3 else out[2][4])
+    ctx.note_search("markbase-shared-cache-witness", 2, 2, detail={
+        "mark_x_offset_subtable2_alone": res[0], "mark_x_offset_after_subtable1": res[1],
+        "finding_present": res[0] is not None and res[0] != res[1]},
+        rule="witness of known_C07_base_cache_shared through shape(); recorded only")
+
+
 def value_font(r, with_gpos=True, with_kern=True):
     adv = [0] + [r.range(300, 900) for _ in range(NG - 1)]
     rec = {"num_glyphs": NG, "cmap": "pua", "advances": adv}
@@ -1236,10 +1366,14 @@ def run(ctx):
     ctx.correspond("kern-fmt0", lines=f0_lines(ctx.rng("f0"), ctx.budget(2000, 100000)), canon=canon)
     ctx.correspond("kern-driver", lines=drv_lines(ctx.rng("drv"), ctx.budget(3000, 300000), plans),
                    classify=classify_drv, canon=canon)
+    ctx.correspond("gpos-lookup", groups=pos_groups(shim, ctx.rng("pos"), ctx.budget(150, 6000), ctx.budget(12, 16)),
+                   classify=classify_pos, canon=canon, only=lambda ln: ln.startswith("gp pos"))
     corpus_seeds(ctx, shim)
     d3_hook_seed(ctx, shim, plans)
     mark_chain_search(ctx, shim, ctx.rng("markchain"), ctx.budget(3000, 200000))
     attach_search(ctx, shim, ctx.rng("attach"), ctx.budget(150, 10000), ctx.budget(8, 12))
+    shared_cache_witness(ctx, shim)
+    target_search(ctx, shim, ctx.rng("target"), ctx.budget(240, 12000), ctx.budget(10, 12))
     value_search(ctx, shim, ctx.rng("value"), ctx.budget(150, 10000), ctx.budget(8, 12), plans)
     # the one remaining known finding last, so that it never uses up the violation budget of the streams above
     btt_hook_witness(ctx, shim)
@@ -1261,6 +1395,11 @@ def replay(ctx, rp):
         o = vlib.run_groups(shim, [[rp["font_line"], rp["request"]]], nproc=1)[0]
         why = check_attach(intkeys(rp["sem"]), rp["text"], rp["dir"], o[1])
         print("reply:", o[1]); print("oracle:", why or "all anchors coincide")
+        return 1 if why else 0
+    if stream == "gpos-target" and "sem" in rp:
+        o = vlib.run_groups(shim, [[rp["font_line"], rp["plain_font_line"], rp["request"], rp["plain_request"]]], nproc=1)[0]
+        why = tg.check(intkeys(rp["sem"]), rp["text"], rp["dir"], rp["flags"], o[2], o[3])
+        print("font :", o[2]); print("plain:", o[3]); print("oracle:", why or "every expected attachment holds")
         return 1 if why else 0
     if stream == "value-shape" and "sem" in rp:
         o = vlib.run_groups(shim, [[rp["font_line"], rp["plain_font_line"], rp["request"], rp["plain_request"]]], nproc=1)[0]
